@@ -2,6 +2,7 @@
 import itertools
 
 import scen
+import vplib
 import sx
 from common import ops_of
 from scen import C, e, n, op, scn, src, sub
@@ -33,17 +34,26 @@ def nontrivial(sc, ob, verdict):
 
 
 def classify(sc, ob, verdict):
+    """the two recorded findings are mirrored by the model (combine_latest is written there as zip + map, sequence_equal as the
+    comparison of the zipped prefix, exactly as in the crate): a failing observation belongs to D9 / D10 only if the MODEL
+    produces the very same observation - anything else on these operators is a new violation"""
     ops = ops_of(sc)
-    if "combine_latest" in ops:
-        return "D9"
-    if "sequence_equal" in ops:
-        return "D10"
-    return None
+    if "combine_latest" not in ops and "sequence_equal" not in ops:
+        return None
+    om = vplib.parse_obs(vplib.run_model([sx.dumps(sc)])[0])
+    if vplib.project_default(om) != vplib.project_default(ob):
+        return None
+    return "D9" if "combine_latest" in ops else "D10"
 
 
 def judge_impl(cases, obs):
     out = []
     for i, ((sc, info), ob) in enumerate(zip(cases, obs)):
+        if info.get("k") == "sequence_equal3" and ob["out"] == "ok":
+            evs = [sx.dumps(x[2]) for x in ob["log"] if x[0] == "t0"]
+            want = ["(n (b %s))" % ("1" if info["want"] == "t" else "0"), "(c)"]
+            if evs != want and evs != [w.replace("(b 1)", "true").replace("(b 0)", "false") for w in want]:
+                out.append((i, "sequence_equal over three completing sources of equal length that are %s delivered %s" % ("identical" if info["want"] == "t" else "NOT identical", " ".join(evs))))
         if info.get("k") != "feedback" or info.get("op") != "switch_on_next" or ob["out"] != "ok":
             continue
         vals = [int(x[2][1]) for x in ob["log"] if x[0] == "t0" and x[2][0] == "n"]
@@ -117,6 +127,18 @@ def generate(rng, tier, focus):
                 if rng.random() > ((0.08 if thorough else 0.03) if k >= 4 else (0.5 if k == 3 else 1.0)):
                     continue
                 cases.append((scn(subjects=[["subject"]] * 3, handles=1, script_=[sub(0, p)] + [["emit", h, ev] for (h, ev) in t]), {"k": "dyn-hot"}))
+    # sequence_equal over THREE completing sources of equal length (so that the known prefix-comparison finding D10 does not apply):
+    # true iff all three emitted the same sequence - a deviation of the middle one included
+    for _ in range(900 if thorough else 150):
+        base_ = [rng.choice([1, 2, 3]) for _ in range(rng.randrange(1, 4))]
+        seqs = [list(base_), list(base_), list(base_)]
+        if rng.random() < 0.6:
+            who = rng.choice([0, 1, 1, 2])
+            pos = rng.randrange(len(base_))
+            seqs[who][pos] = seqs[who][pos] % 3 + 1
+        srcs_ = [src([scen.script(q, "c")], False) for q in seqs]
+        p = op("sequence_equal", [], ["cold", 0], ["cold", 1], ["cold", 2])
+        cases.append((scn(srcs=srcs_, handles=1, script_=[sub(0, p)]), {"k": "sequence_equal3", "want": "t" if seqs[0] == seqs[1] == seqs[2] else "f"}))
     # feedback: the subscriber, from inside its i-th callback, emits into one of the operator's hot sources (the operator is
     # re-entered while it is delivering); judged by the correspondence, and for switch_on_next by its rule: once the target has
     # emitted, nothing of the source comes through any more
